@@ -369,6 +369,17 @@ type runStats struct {
 
 // runSeq runs one history on a fresh server. It returns false after reporting a violation.
 func runSeq(rep *ev.Reporter, sc seqCase, syms []*symbol, st *runStats) bool {
+	if len(syms) >= 3 && len(syms) <= 4 {
+		nonTrivial := 0
+		for _, sy := range syms {
+			if !sy.trivial() {
+				nonTrivial++
+			}
+		}
+		if nonTrivial >= 2 {
+			rep.Sample(map[string]any{"case": sc, "requests": syms}) // the reporter keeps the first few
+		}
+	}
 	k, _ := kindByName(sc.Cache)
 	srv := newServer(k, sc.Via != "executor")
 	m := newModel(k.Cap)
